@@ -236,7 +236,7 @@ PL_INVARIANTS = ['BlockCertificate', 'VectorCertificate', 'CaseRight']
 def pl_constants(**kw):
     c = dict(MaxN=6, Sizes={1, 2}, Charges={0, 1}, MaxBlocks=2, MaxDim=3, DVals='<-DValsSmall', GVals='<-GValsSmall',
              AVals='<-AValsSmall', Flavours={'herm'}, Perms={'id'}, UnitKinds={'gau'}, Sigmas='<-SigmasSmall',
-             Kinds={'lanczos'}, GsVals='<-GsValsSmall', MaxGsRows=2)
+             Kinds={'lanczos'}, GsVals='<-GsValsSmall', MaxGsRows=2, DMode='free')
     c.update(kw)
     return c
 
